@@ -36,7 +36,7 @@ MODELS = ["ZNCC", "NCC", "PCC", "FSC"]
 # statement's 'copy of the template displaced by d')
 MTAB = [
     {8: 0.5, 9: 1.0, 10: 1.5, 11: 2.0, 12: 2.5, 14: 3.0},
-    {8: 0.4, 9: 0.8, 10: 1.3, 11: 1.6, 12: 2.2, 14: 2.6},
+    {8: 0.4, 9: 0.8, 10: 1.3, 11: 1.95, 12: 2.2, 14: 2.95},
 ]
 FRACS = [(0.0, 0.0, 0.0), (0.8, -0.45, 0.3), (-0.55, 0.7, -0.85), (0.2, 0.95, 0.75)]
 CLASSES = {"smooth": (1.0, [1.0, 0.8, 0.6, 0.5], [1.0, 0.85, 0.95, 0.9]), "broadband": (0.75, [1.0, 0.8, -0.5, 0.6], [1.0, 0.9, 1.1, 0.95])}
